@@ -122,13 +122,17 @@ def oracle(seq, outs):
 
 # ---------------------------------------------------------------- running
 
-def run_impl(seqs, settle_ms=None, workers=16):
-    """run scenarios on the real node, in parallel worker processes; returns list of output-line lists"""
+def run_impl(seqs, settle_ms=None, workers=16, procs=None):
+    """run scenarios on the real node, in parallel worker processes; returns list of output-line lists.
+    procs=None: the engine's default (GOMAXPROCS=1, quiescence by yielding: deterministic answers);
+    procs=k>1: the node's goroutines run in parallel (answers are attributed to ops by a quiet window)."""
     if not seqs:
         return []
     env = dict(os.environ, GOMEMLIMIT="2GiB")
     if settle_ms:
         env["VERIF_SETTLE_MS"] = str(settle_ms)
+    if procs:
+        env["VERIF_HPROCS"] = str(procs)
     workers = max(1, min(workers, len(seqs)))
     chunks = [[] for _ in range(workers)]
     for i, s in enumerate(seqs):
@@ -211,16 +215,27 @@ def gen_init(r, lead=None, trans=None, base=None):
 
 
 def sc_normal(r):
+    """the network works: every round the peers' partials arrive, the beacon is aggregated, time passes in steps"""
     ini, c = gen_init(r)
+    p = c["period"]
     s = [ini, "start", f"adv {c['lead']}"]
     for _ in range(r.range(3, 8)):
         if r.chance(4, 5):
             s.append("agg")
+            if r.chance(1, 5):
+                s.append("agg")      # a threshold of fast-clocked peers: the next round too (admitted: clock round + 1)
         if r.chance(1, 4):
             s.append(f"partial {r.range(1, c['n'] - 1)} c+1 good")
         if r.chance(1, 6):
             s.append("put 1")
-        s.append(f"adv {c['period']}")
+        # one period, in one step or in pieces (catch-up period first, one second, ...)
+        left = p
+        if r.chance(1, 2):
+            for d in r.shuffle([c["catchup"], 1, p // 2]):
+                if 0 < d < left and r.chance(2, 3):
+                    s.append(f"adv {d}")
+                    left -= d
+        s.append(f"adv {left}")
     return s + ["settle"]
 
 
@@ -412,177 +427,276 @@ def finding_key(f):
     return (f["kind"], f["known"])
 
 
-def shrink(seq, want, budget_s=60):
-    """delta-debug the op list on the real node: keep the `init`, drop ops while a finding of the same kind remains"""
+def shrink(seq, want, idx, budget_s=60):
+    """delta-debug the op list on the real node: cut after the failing op, then drop ops (never the `init`) while
+    a finding of the same class remains"""
     t0 = time.time()
 
     def fails(s):
         o = run_impl([s], workers=1)[0]
         return any(finding_key(f) == want for f in oracle(s, o))
-    cur = list(seq)
+    cur = list(seq[:idx + 1])
+    if not fails(cur):
+        cur = list(seq)
     changed = True
     while changed and time.time() - t0 < budget_s:
         changed = False
-        for i in range(len(cur) - 1, 0, -1):
+        for i in range(len(cur) - 2, 0, -1):
             cand = cur[:i] + cur[i + 1:]
             if len(cand) > 1 and fails(cand):
                 cur, changed = cand, True
                 break
+            if time.time() - t0 > budget_s:
+                break
     return cur
+
+
+def model_guided(rng, count, limit=24):
+    """S(b): the regenerated model follows the source; let it predict schedules on which the property's oracle
+    fails with a class other than the recorded finding. Returns candidate op sequences, shortest first."""
+    scen = []
+    for name, g in KINDS:
+        for i in range(count):
+            scen.append(g(rng.fork(f"guided:{name}{i}")))
+    lines = [l for s in scen for l in s]
+    rc, mo, err = core.run_lines(D, ["handler"], lines, timeout=3000)
+    if rc != 0 or len(mo) != len(lines):
+        return []
+    cands, k = [], 0
+    for s in scen:
+        o = mo[k:k + len(s)]
+        k += len(s)
+        bad = [f for f in oracle(s, o) if not f["known"]]
+        if bad:
+            cands.append(s[:bad[0]["i"] + 1] + ["settle"])
+    cands.sort(key=len)
+    seen, out = set(), []
+    for c in cands:
+        if tuple(c) not in seen:
+            seen.add(tuple(c))
+            out.append(c)
+    return out[:limit]
+
+
+class Stats:
+    def __init__(self):
+        self.dist = {"scenarios_by_kind": {}, "ops_by_kind": {}, "partial_status": {}, "tick_head_minus_tick_round": {},
+                     "tick_head_minus_clock_round": {}, "emissions": 0, "catchup_emissions": 0, "catchup_launches": 0,
+                     "early_emissions_known_class": 0, "gate_held_ticks": 0, "burst_advances": 0, "bad_partials_emitted": 0,
+                     "window_probes_by_offset": {}}
+        self.nontriv = set()
+        self.total_ops = 0
+        self.scenarios = 0
+        self.validated = 0
+        self.validated_ops = 0
+        self.stops = {}
+        self.samples = []
+
+    def add(self, kind, seq, o):
+        d_ = self.dist
+        self.scenarios += 1
+        d_["scenarios_by_kind"][kind] = d_["scenarios_by_kind"].get(kind, 0) + 1
+        period = int(seq[0].split()[3])
+        emitted = False
+        for op, line in zip(seq, o):
+            self.total_ops += 1
+            k = op.split()[0]
+            d_["ops_by_kind"][k] = d_["ops_by_kind"].get(k, 0) + 1
+            if line == "bad-op" or line.startswith("panic") or line.startswith("err:"):
+                d_["ops_by_kind"]["(bad-op)"] = d_["ops_by_kind"].get("(bad-op)", 0) + 1
+                continue
+            d = parse(line)
+            if "badpartials=" in line and "badpartials=0" not in line:
+                d_["bad_partials_emitted"] += 1
+            if k == "partial" and ":" in d["status"]:
+                st, r = d["status"].rsplit(":", 1)
+                d_["partial_status"][st] = d_["partial_status"].get(st, 0) + 1
+                off = str(max(-3, min(4, int(r) - round_at(d["C"], period))))
+                key = f"clock{int(off):+d}:{st}"
+                d_["window_probes_by_offset"][key] = d_["window_probes_by_offset"].get(key, 0) + 1
+            for t in d["T"]:
+                rho, h = map(int, t.split(":"))
+                key = str(max(-4, min(4, h - rho)))
+                d_["tick_head_minus_tick_round"][key] = d_["tick_head_minus_tick_round"].get(key, 0) + 1
+                key = str(max(-4, min(4, h - round_at(d["C"], period))))
+                d_["tick_head_minus_clock_round"][key] = d_["tick_head_minus_clock_round"].get(key, 0) + 1
+            if len(d["T"]) > 1:
+                d_["burst_advances"] += 1
+            if k == "release" and d["status"] == "ok":
+                d_["gate_held_ticks"] += 1
+            for a in d["A"]:
+                if a.endswith(":1"):
+                    d_["catchup_launches"] += 1
+            if d["E"]:
+                emitted = True
+                ne = sum(int(c) for (_, _, c) in d["E"] if "/" not in c)
+                d_["emissions"] += ne
+                d_["catchup_emissions"] += max(0, ne - len(d["T"]))
+        if emitted:
+            self.nontriv.add(tuple(seq))
 
 
 def explore(ctx, res):
     rng = ctx["rng"]
-    tier = "thorough" if ctx["deep"] else ctx["tier"]
-    per_kind = 36 if tier == "quick" else 1500
+    deep = ctx["deep"]
+    tier = ctx["tier"]
+    per_batch = 12
+    n_batches = 3 if tier == "quick" else 120
+    budget_s = 100 if tier == "quick" else 22 * 60
+    deep_budget_s = 200 if tier == "quick" else 22 * 60   # when something broke: keep looking for a concrete input
     workers = 16
     t0 = time.time()
+    st = Stats()
     corpus = []
     for f in sorted(glob.glob(os.path.join(core.VERIF, "corpus", ID, "*.json"))):
         corpus.append(("corpus:" + os.path.basename(f), json.load(open(f))["ops"]))
     if ctx.get("replay"):
         corpus = [("replay", json.load(open(ctx["replay"]))["ops"])]
-        per_kind = 0
-    scen = list(corpus)
-    for name, g in KINDS:
-        for i in range(per_kind):
-            scen.append((name, g(rng.fork(f"{name}{i}"))))
-    seqs = [s for _, s in scen]
-    outs = run_impl(seqs, workers=workers)
-
-    dist = {"scenarios_by_kind": {}, "ops_by_kind": {}, "partial_status": {}, "tick_head_minus_tick_round": {},
-            "tick_head_minus_clock_round": {}, "emissions": 0, "catchup_launches": 0, "early_emissions_known_class": 0,
-            "gate_held_ticks": 0, "burst_advances": 0, "bad_partials_emitted": 0}
-    nontriv = set()
-    total_ops = 0
-    viol = []      # (scenario index, finding)
-    for si, ((kind, seq), o) in enumerate(zip(scen, outs)):
-        dist["scenarios_by_kind"][kind] = dist["scenarios_by_kind"].get(kind, 0) + 1
-        period = int(seq[0].split()[3])
-        emitted = False
-        for op, line in zip(seq, o):
-            total_ops += 1
-            k = op.split()[0]
-            dist["ops_by_kind"][k] = dist["ops_by_kind"].get(k, 0) + 1
-            if line == "bad-op" or line.startswith("panic") or line.startswith("err:"):
-                continue
-            d = parse(line)
-            if "badpartials=" in line and "badpartials=0" not in line:
-                dist["bad_partials_emitted"] += 1
-            if k == "partial":
-                st = d["status"].split(":")[0]
-                dist["partial_status"][st] = dist["partial_status"].get(st, 0) + 1
-            for t in d["T"]:
-                rho, h = map(int, t.split(":"))
-                key = str(max(-4, min(4, h - rho)))
-                dist["tick_head_minus_tick_round"][key] = dist["tick_head_minus_tick_round"].get(key, 0) + 1
-                key = str(max(-4, min(4, h - round_at(d["C"], period))))
-                dist["tick_head_minus_clock_round"][key] = dist["tick_head_minus_clock_round"].get(key, 0) + 1
-            if len(d["T"]) > 1:
-                dist["burst_advances"] += 1
-            if k == "release" and d["status"] == "ok":
-                dist["gate_held_ticks"] += 1
-            for a in d["A"]:
-                if a.endswith(":1"):
-                    dist["catchup_launches"] += 1
-            if d["E"]:
-                emitted = True
-                dist["emissions"] += len(d["E"])
-        if emitted:
-            nontriv.add(tuple(seq))
-        for f in oracle(seq, o):
-            viol.append((si, f))
-
-    # ---- P5 verdicts: confirm by re-running the schedule, classify, report
+        n_batches = 1
     reported = set()
-    confirmed_known = 0
-    for si, f in viol:
-        key = (finding_key(f), scen[si][0].startswith("corpus"))
-        if f["known"]:
-            dist["early_emissions_known_class"] += 1
-        if key in reported and not scen[si][0].startswith("corpus"):
-            continue
-        seq = seqs[si]
-        o2 = run_impl([seq], settle_ms=30, workers=1)[0]
-        again = [g for g in oracle(seq, o2) if finding_key(g) == finding_key(f)]
-        if not again:
-            dist["unreproduced_oracle_hits"] = dist.get("unreproduced_oracle_hits", 0) + 1
-            continue
-        reported.add(key)
-        if f["known"]:
-            sig = KNOWN_SIG
-            small = seq if len(seq) <= 6 else shrink(seq, finding_key(f), 30)
-        else:
-            sig = f"{f['kind']}:unexplained"
-            small = shrink(seq, finding_key(f), 90 if tier == "quick" else 300)
-        so = run_impl([small], settle_ms=30, workers=1)[0]
-        why = [g for g in oracle(small, so) if finding_key(g) == finding_key(f)]
-        if not why:
-            small, so, why = seq, o2, again
-        rep = {"engine": "handler", "kind": "impl-violates", "ops": small, "observed": [x.split(" # ")[0] for x in so],
-               "oracle": why[0]["why"], "scenario_kind": scen[si][0]}
-        if not res.report(sig, rep):
-            confirmed_known += 1
-
-    # ---- P4: model diff (variant the implementation matches)
-    validated = validated_ops = 0
-    stops = {}
-    variant = None
-    if ctx["model_ok"]:
-        results = {}
-        for v in ("asis", "fixed"):
-            mo = run_model(seqs, outs, v)
-            results[v] = [compare(s, o, m) for s, o, m in zip(seqs, outs, mo)], mo
-        nd = {v: sum(1 for c in results[v][0] if c[2] is not None) for v in results}
-        variant = "asis" if nd["asis"] <= nd["fixed"] else "fixed"
-        cmp_, mo = results[variant]
-        div_reported = 0
-        for si, (c, m) in enumerate(zip(cmp_, mo)):
-            validated_ops += c[0]
-            if c[1]:
-                stops[c[1]] = stops.get(c[1], 0) + 1
-            if c[2] is None:
-                if c[1] is None:
-                    validated += 1
+    known_confirmed = 0
+    variants = {"asis": 0, "fixed": 0}
+    div_reported = 0
+    stop = False
+    deepen = deep          # a proof / translator / correspondence break: search harder for a concrete input
+    guided_done = False
+    b = -1
+    while True:
+        b += 1
+        if stop or ctx.get("replay") and b > 0:
+            break
+        if b > 0 and time.time() - t0 > (deep_budget_s if deepen else budget_s):
+            break
+        if b >= (max(n_batches, 12) if deepen else n_batches):
+            break
+        scen = list(corpus) if b == 0 else []
+        if deepen and not guided_done and ctx["model_ok"] and not ctx.get("replay"):
+            guided_done = True
+            for c in model_guided(rng.fork("guided"), 400 if tier == "quick" else 4000):
+                scen.append(("model-guided", c))
+            st.dist["model_guided_candidates"] = sum(1 for k, _ in scen if k == "model-guided")
+        if not ctx.get("replay"):
+            for name, g in KINDS:
+                for i in range(per_batch):
+                    scen.append((name, g(rng.fork(f"{name}{b}_{i}"))))
+        seqs = [s for _, s in scen]
+        outs = run_impl(seqs, workers=workers)
+        viol = []
+        for si, ((kind, seq), o) in enumerate(zip(scen, outs)):
+            st.add(kind, seq, o)
+            for f in oracle(seq, o):
+                viol.append((si, f))
+        if b == 0:
+            st.samples = [{"kind": scen[i][0], "ops": seqs[i][:14], "impl": [x.split(' # ')[0] for x in outs[i][:14]]}
+                          for i in sorted(set([0, len(scen) // 3, 2 * len(scen) // 3, len(scen) - 1]))]
+        # ---- P5 verdicts: confirm by re-running the schedule, classify, shrink, report
+        for si, f in viol:
+            if f["known"]:
+                st.dist["early_emissions_known_class"] += 1
+            key = finding_key(f)
+            if key in reported:
                 continue
-            # a divergence: believe it only if it reproduces (twice, slower settling) at the same op
             seq = seqs[si]
-            same = 0
-            last = None
-            for _ in range(2):
-                o2 = run_impl([seq], settle_ms=40, workers=1)[0]
-                m2 = run_model([seq], [o2], variant)[0]
-                c2 = compare(seq, o2, m2)
-                if c2[2] is not None:
-                    same += 1
-                    last = (o2, m2, c2)
-            if same < 2:
-                stops["timing-not-reproduced"] = stops.get("timing-not-reproduced", 0) + 1
+            o2 = run_impl([seq], workers=1)[0]
+            again = [g for g in oracle(seq, o2) if finding_key(g) == key]
+            if not again:
+                st.dist["unreproduced_oracle_hits"] = st.dist.get("unreproduced_oracle_hits", 0) + 1
                 continue
-            if div_reported >= 3:
-                continue
-            div_reported += 1
-            o2, m2, c2 = last
-            j = c2[2]
-            res.add_violation({"engine": "handler", "kind": "model-impl-diverge", "variant": variant, "ops": seq[:j + 1],
-                               "observed": [o2[j].split(" # ")[0]], "expected": [m2[j]], "scenario_kind": scen[si][0],
-                               "note": "correspondence 'handler' no longer checks at this op; the no-early-emission oracle accepts the implementation's answers on this schedule"},
-                              found=False)
-    res.cov["variant_matched"] = variant
-    if variant == "asis" and confirmed_known == 0 and ctx["model_ok"] and not res.violations:
-        # the node behaves like the as-is model but the recorded witness did not fire: say so (not an error)
-        res.cov["note"] = "as-is variant matched but no head-ahead tick with an early emission was observed in this run"
-    res.cov.update(evaluations=total_ops, distinct_nontrivial=len(nontriv), traces_validated_against_impl=validated)
-    res.cov["ops_validated_against_model"] = validated_ops
-    res.cov["model_diff_stopped_early"] = stops
-    res.cov["scenarios"] = len(scen)
+            reported.add(key)
+            small = shrink(seq, key, again[0]["i"], 20 if f["known"] else (60 if tier == "quick" else 240))
+            so = run_impl([small], workers=1)[0]
+            why = [g for g in oracle(small, so) if finding_key(g) == key]
+            if not why:
+                small, so, why = seq, o2, again
+            rep = {"engine": "handler", "kind": "impl-violates", "ops": small, "observed": [x.split(" # ")[0] for x in so],
+                   "oracle": why[0]["why"], "scenario_kind": scen[si][0]}
+            sig = KNOWN_SIG if f["known"] else {"early-emission": "early-emission:not-explained-by-a-tick-with-head-ahead",
+                                                "window": "acceptance-window:partial-beyond-clock-round+1-not-refused"}.get(f["kind"], f["kind"])
+            if res.report(sig, rep):
+                stop = True       # a genuine violation with a concrete input: no need to look further
+            else:
+                known_confirmed += 1
+        # ---- the same kinds with the node's goroutines truly parallel (GOMAXPROCS=4): P5 oracle only
+        if not stop and not ctx.get("replay"):
+            par = [(name, g(rng.fork(f"par:{name}{b}_{i}"))) for name, g in KINDS for i in range(2)]
+            pouts = run_impl([s_ for _, s_ in par], workers=8, procs=4)
+            for (kind, seq), o in zip(par, pouts):
+                st.dist["parallel_scenarios_oracle_only"] = st.dist.get("parallel_scenarios_oracle_only", 0) + 1
+                st.total_ops += len(seq)
+                for f in oracle(seq, o):
+                    if f["known"]:
+                        st.dist["early_emissions_known_class"] += 1
+                        continue
+                    key = finding_key(f)
+                    if key in reported:
+                        continue
+                    o2 = run_impl([seq], workers=1, procs=4)[0]
+                    again = [g_ for g_ in oracle(seq, o2) if finding_key(g_) == key]
+                    if not again:
+                        st.dist["unreproduced_oracle_hits"] = st.dist.get("unreproduced_oracle_hits", 0) + 1
+                        continue
+                    reported.add(key)
+                    rep = {"engine": "handler", "kind": "impl-violates", "ops": seq[:again[0]["i"] + 1], "observed": [x.split(" # ")[0] for x in o2[:again[0]["i"] + 1]],
+                           "oracle": again[0]["why"], "scenario_kind": kind + " (GOMAXPROCS=4: run with VERIF_HPROCS=4)"}
+                    sig = {"early-emission": "early-emission:not-explained-by-a-tick-with-head-ahead",
+                           "window": "acceptance-window:partial-beyond-clock-round+1-not-refused"}.get(f["kind"], f["kind"])
+                    if res.report(sig, rep):
+                        stop = True
+        # ---- P4: model diff (both variants; the implementation must match one of them throughout)
+        if ctx["model_ok"] and not stop:
+            results = {}
+            for v in ("asis", "fixed"):
+                mo = run_model(seqs, outs, v)
+                results[v] = ([compare(s, o, m) for s, o, m in zip(seqs, outs, mo)], mo)
+            nd = {v: sum(1 for c in results[v][0] if c[2] is not None) for v in results}
+            variant = "asis" if nd["asis"] <= nd["fixed"] else "fixed"
+            variants[variant] += 1
+            cmp_, mo = results[variant]
+            for si, (c, m) in enumerate(zip(cmp_, mo)):
+                st.validated_ops += c[0]
+                if c[1]:
+                    st.stops[c[1]] = st.stops.get(c[1], 0) + 1
+                if c[2] is None:
+                    if c[1] is None:
+                        st.validated += 1
+                    continue
+                # a divergence: believe it only if it reproduces (twice) at an op
+                seq = seqs[si]
+                same, last = 0, None
+                for _ in range(2):
+                    o2 = run_impl([seq], workers=1)[0]
+                    m2 = run_model([seq], [o2], variant)[0]
+                    c2 = compare(seq, o2, m2)
+                    if c2[2] is not None:
+                        same += 1
+                        last = (o2, m2, c2)
+                if same < 2:
+                    st.stops["divergence-not-reproduced"] = st.stops.get("divergence-not-reproduced", 0) + 1
+                    continue
+                deepen = True
+                if div_reported >= 2:
+                    continue
+                div_reported += 1
+                o2, m2, c2 = last
+                j = c2[2]
+                res.add_violation({"engine": "handler", "kind": "model-impl-diverge", "variant": variant, "ops": seq[:j + 1],
+                                   "observed": [o2[j].split(" # ")[0]], "expected": [m2[j]], "scenario_kind": scen[si][0],
+                                   "note": "correspondence 'handler' no longer checks at this op; the no-early-emission / acceptance-window oracle accepts the implementation's answers on this schedule"},
+                                  found=False)
+    res.cov["variant_matched"] = "asis" if variants["asis"] >= variants["fixed"] else "fixed"
+    if variants["asis"] and variants["fixed"]:
+        res.cov["variant_matched"] = f"mixed {variants}"
+    res.cov.update(evaluations=st.total_ops, distinct_nontrivial=len(st.nontriv), traces_validated_against_impl=st.validated)
+    res.cov["ops_validated_against_model"] = st.validated_ops
+    res.cov["model_diff_stopped_early"] = st.stops
+    res.cov["scenarios"] = st.scenarios
+    res.cov["known_finding_witnesses_confirmed"] = known_confirmed
     res.cov["rule"] = ("scenarios = corpus witnesses + per kind (normal ticking with peers' partials; chain halt then catch-up mode; multi-period clock bursts; "
                        "head put behind/level/ahead of the clock through Store().Put; run loop held between taking a tick and reading the head; stop/restart+Catchup; "
                        "late join; acceptance window with real partial signatures incl. before genesis, bad signature, index outside the group, own index; Transition; "
                        "TransitionNewGroup; random mixes), over groups (3,2) (4,3) (5,3), periods 2..30 s, catch-up 0..period, chained/unchained, memdb/bolt; "
                        "evaluations = op lines executed on the real Handler; non-trivial = distinct scenario in which the node emitted at least one partial; "
-                       "a scenario counts as validated when every op line equals the Lean model's line (model diff stops at the first op the model flags as a race inside the node)")
-    res.cov["samples"] = [{"kind": scen[i][0], "ops": seqs[i][:14], "impl": [x.split(' # ')[0] for x in outs[i][:14]]}
-                          for i in ([0, len(scen) // 3, 2 * len(scen) // 3, len(scen) - 1] if scen else [])]
-    res.cov["distribution"] = dist
+                       "a scenario counts as validated when every op line equals the Lean model's line (the model diff of a scenario stops at the first op the model flags as a race inside the node)")
+    res.cov["samples"] = st.samples
+    res.cov["distribution"] = st.dist
     res.cov["explore_wall_s"] = round(time.time() - t0, 1)
